@@ -160,6 +160,7 @@ func init() {
 		}
 		return Str{c: sb.String()}
 	})
+	regSimple(v+"FSRoot", func(in *Interp, a []Value) Value { in.memfs(); return Str{c: "/memfs"} })
 	regSimple(v+"Concrete", func(in *Interp, a []Value) Value {
 		return in.tb.Int(TI64, in.concretize(a[0].(*Term), "Concrete()"))
 	})
